@@ -5,13 +5,15 @@ import vlib
 META = dict(
     text="Coq theorems (Props/Properties_C17.v) over executable models of the HTTP-CONNECT, SOCKS5, pseudo-SSL and "
          "TURN-over-TCP receive paths and of the TCP send queue (tcp-bsd.c + socket.c): for ALL streams and ALL chunkings "
-         "(induction over the chunk list from a one-step resumption lemma) upward messages, handshake outcome and downward "
-         "bytes do not depend on segmentation; tunnels are transparent; for ALL kernel accept patterns the kernel receives a "
-         "prefix of the concatenation of whole frames; every buffer index of the models is in range (checked reads/writes, "
+         "(induction over the chunk list from a one-step resumption lemma; for HTTP by refinement to a chunking-free "
+         "specification of the reply parser) upward messages, handshake outcome and downward bytes do not depend on "
+         "segmentation; tunnels are transparent; for ALL kernel accept patterns kernel bytes ++ queued bytes = concatenation "
+         "of the accepted frames; no model ever indexes outside a buffer, fails an assertion or spins (checked reads/writes, "
          "g_assert = Fault).  Where the unchanged code violates a statement the file carries a vm_compute witness "
-         "(`_refuted`) and the statement is proved with exactly that trigger excluded.  Each model is tied to /repo's working "
-         "tree on every run by differential execution against the REAL layer code over a scripted base socket / interposed "
-         "kernel write, plus an implementation-side oracle that states the property without the model.",
+         "(`_refuted`) and the statement is proved with exactly that trigger excluded (7 defects, all reproduced on the real "
+         "code, listed as KNOWN-FINDING).  Each model is tied to /repo's working tree on every run by differential execution "
+         "against the REAL layer code over a scripted base socket / interposed kernel write, plus an implementation-side "
+         "oracle that states the property without the model.",
     note="trusted: Coq kernel, extraction (ExtrOcamlBasic only), the hand-written models (tied by sampling, not proof), the "
          "harness (scripted base socket semantics, painting of uninitialised memory, interposed g_socket_send_message). The "
          "RFC 4571 framing inside agent.c belongs to C02 and is not part of this check.",
@@ -288,7 +290,7 @@ def turn_ref(compat, s):
 
 
 def gen_turn(rng, C, tier):
-    nseg = 11 if tier == "quick" else 17
+    nseg = 11 if tier == "quick" else 16
     for compat in (RFC5766, DRAFT9, GOOGLE, OC2007):
         # every segmentation of short streams (frames + a dangling start)
         for _ in range(2 if tier == "quick" else 3):
@@ -702,6 +704,12 @@ def gen_http(rng, C, tier):
         stream = rep + tunnel_bytes(rng, rng.choice([0, 5]))
         cuts = sorted(set(rand_cuts(rng, len(stream), rng.choice(["few", "many"]))) | ({len(rep)} if len(rep) < len(stream) else set()))
         case(rng.choice(Gs), stream, cuts, len(rep), "any", "ring-growth")
+    # a well-formed reply with one long header line; the tunnelled bytes arrive in a read of their own
+    for nq in (1100, 2100):
+        for G in (13, 10, 0xbe):
+            rep = b"HTTP/1.0 200 OK\r\nX-Long: " + b"q" * nq + b"\r\n\r\n"
+            stream = rep + b"\x01\x02"
+            case(G, stream, sorted(set(rand_cuts(rng, len(rep), "few")) | {len(rep)}), len(rep), "ok", "ring-growth")
     # long tunnelled streams
     for _ in range(4 if tier == "quick" else 40):
         rep = b"HTTP/1.0 200 OK\r\nX: y\r\n\r\n"
@@ -737,29 +745,35 @@ def oracle_proxy(t, o):
     if layer == "P" and any(req in (79, 83) and 0 < got < req for req, got in reads):
         known = KNOWN_PSSL
     if layer == "H":
+        found = set()
         if any(x.startswith("R1:0:-:z") for x in toks):
-            known = KNOWN_HTTP_TRAIL
-        else:
-            for half in hs_:
-                got_total, grew = 0, False
-                for x in half:
-                    if x[0] == "q":
-                        req, got = (int(v) for v in x[1:].split("/"))
-                        if req == 70000:
-                            break
-                        if got_total >= 1024 and req >= 1024:
-                            grew = True
-                        got_total += got
-                        pre = stream[:got_total]
-                        line = pre[pre.rfind(b"\n") + 1:].lower()
-                        if line.startswith(b"content-length:") and line[15:].lstrip(b" ")[-1:].isdigit() and line[15:].lstrip(b" ").isdigit():
-                            known = KNOWN_HTTP_DIGIT
-                if grew and not known:
-                    known = KNOWN_HTTP_GROW
+            found.add(KNOWN_HTTP_TRAIL)
+        for half in hs_:
+            got_total = 0
+            for x in half:
+                if x[0] == "q":
+                    req, got = (int(v) for v in x[1:].split("/"))
+                    if req == 70000:
+                        break
+                    if got_total >= 1024 and req >= 1024:
+                        found.add(KNOWN_HTTP_GROW)      # the buffer was full and had to grow (after the status line: wrapped)
+                    got_total += got
+                    pre = stream[:got_total]
+                    line = pre[pre.rfind(b"\n") + 1:].lower()
+                    val = line[15:].lstrip(b" ")
+                    if line.startswith(b"content-length:") and val and val.isdigit():
+                        found.add(KNOWN_HTTP_DIGIT)
+        for kf in (KNOWN_HTTP_GROW, KNOWN_HTTP_DIGIT, KNOWN_HTTP_TRAIL):
+            if kf in found:
+                known = kf
+                break
     if a != b:
         return known or "chunked delivery and one-chunk delivery differ: %r vs %r" % (summ(a), summ(b))
     if known:
-        return None        # both deliveries hit the defect the same way; nothing to compare against
+        # both deliveries hit the defect the same way; it is still a finding when it breaks a well-formed exchange
+        if expect == "ok" and (b[2] != "ok" or b[0][0] != stream[hs:] or b[0][1]):
+            return known
+        return None
     # the expected outcome of a well-formed exchange (one-chunk delivery)
     if expect == "ok":
         if b[2] != "ok" or b[0][0] != stream[hs:] or b[0][1]:
